@@ -1,17 +1,20 @@
 #!/bin/bash
 # tools/seeded.sh <seeded-dir> [check ids...]
-# applies the seeded change to /repo, runs the quick checks (default: all), reverts, prints a table row
-D=$1; shift
+# applies the seeded change to the repository, runs the quick checks (default: all), reverts,
+# prints one RESULT line.  REPO (default /repo) and the check script next to this tool are used.
+D=$(cd "$1" && pwd); shift
+HERE=$(cd "$(dirname "${BASH_SOURCE[0]}")/.." && pwd)
+REPO=${REPO:-/repo}
 CHECKS=${@:-C01 C02 C03 C04 C05 C06 C07 C08 C09 C10 C11 C12 C13 C14 C15 C16 C17 C18 C19 C20}
-cd /repo || exit 2
-if ! git diff --quiet; then echo "/repo has local modifications, refusing"; exit 2; fi
-if ! git apply --check "$D/patch.diff" 2>/dev/null; then echo "PATCH DOES NOT APPLY: $D"; exit 2; fi
+cd "$REPO" || exit 2
+if ! git diff --quiet; then echo "$REPO has local modifications, refusing"; exit 2; fi
+if ! git apply --check "$D/patch.diff" 2>/dev/null; then echo "RESULT $(basename $D): PATCH DOES NOT APPLY"; exit 2; fi
 git apply "$D/patch.diff"
 CAUGHT=""; ERR=""
 for c in $CHECKS; do
-  OUT=$(cd /verif && timeout 900 ./check $c quick 2>&1); RC=$?
+  OUT=$(cd "$HERE" && timeout 1200 ./check $c quick 2>&1); RC=$?
   if [ $RC -eq 1 ]; then CAUGHT="$CAUGHT $c"; fi
   if [ $RC -ge 2 ]; then ERR="$ERR $c(rc=$RC)"; fi
 done
-git -C /repo checkout -- .
+git -C "$REPO" checkout -- .
 echo "RESULT $(basename $D): caught_by=[${CAUGHT# }] machinery=[${ERR# }]"
